@@ -70,9 +70,11 @@ package dns
 //@   assert at "if &buf[0] != &mbuf[0] {" inplace: ref(buf) == ref(mbuf) && sliceoff(buf) == sliceoff(mbuf)
 
 // the signing helpers build their results in fresh memory and leave every caller buffer alone
-//@ func intToBytes [C18 C10 C17 C10 C17]
+//@ func intToBytes [C18 C10 C17]
 //@   opt no-safety
 //@   exit pad: len(buf) < length ==> len(ret0) == length
+// big-endian integers are padded on the left: the value's octets end the result
+//@   callsite "copy" right: sliceoff(arg0) == sliceoff(b) + length - len(buf) && ref(arg0) == ref(b) && ref(arg1) == ref(buf) && sliceoff(arg1) == sliceoff(buf) && len(arg1) == len(buf)
 //@   exit asis: len(buf) >= length ==> same(ret0, buf)
 //@   ensures atleast: len(ret0) >= length
 //@   fresh
